@@ -48,7 +48,7 @@ pub fn check(r: &ExecResult, prog: &Program) -> Vec<Finding> {
             .position(|rec| {
                 Some(rec.task) == p.reducer_task
                     && match rec.ev {
-                        Ev::ChanRecv { ch, .. } => elem_kind(r.chans[ch as usize].elem) == "dispatch",
+                        Ev::ChanRecv { ch, .. } => dispatch_chans(r).contains(&ch),
                         Ev::JobEnd { .. } => true,
                         _ => false,
                     }
